@@ -36,7 +36,7 @@ LEVEL_NOTE = ("Trusted: VTerm's kitty placement semantics (placements survive ov
               "placements), urwid's own incremental redraw (real code, not under test).")
 TIERS = {
     "quick": {"runs": 6000, "max_ops": 22},
-    "thorough": {"runs": 40000, "max_ops": 25, "wall_cap": 1500},
+    "thorough": {"runs": 40000, "max_ops": 40, "wall_cap": 1500},
 }
 RULE = ("history = terminal identity + screen size <= 60x30 + pool of <= 6 widgets + <= max_ops "
         "operations; non-trivial = an image widget changed position, size, visibility or identity "
